@@ -213,7 +213,7 @@ func (s *skel) block(depth int, l []ast.Stmt) {
 func genSkeletons() {
 	var b bytes.Buffer
 	b.WriteString("(* GENERATED by tools/gen (skeleton.go): concurrency skeletons of the goroutine-bearing functions. Do not edit. *)\n")
-	b.WriteString("From Coq Require Import String List.\nImport ListNotations.\nOpen Scope string_scope.\n\n")
+	b.WriteString("From Coq Require Import String List.\nImport ListNotations.\nLocal Open Scope string_scope.\n\n")
 	cache := map[string]*pkgFiles{}
 	for _, t := range skelTargets {
 		p := cache[t.dir]
